@@ -284,3 +284,53 @@ def pipeline_frame(x):
 def frame_numeric_id(head):
     m = re.match(rb'\{"jsonrpc":"2\.0","id":(\d+),"(result|error)":', head)
     return int(m.group(1)) if m else None
+
+
+# ---------------------------------------------------------------- WS frag mode (srvlimits "mode":"frag")
+
+FRAG_BARRIER = 9999999
+
+
+def frag_barrier_call(i=FRAG_BARRIER):
+    """the call srvlimits writes after the last message of a frag-mode case (answered -32601, no handler)"""
+    return b'{"jsonrpc":"2.0","id":%d,"method":"nosuch"}' % i
+
+
+def client_header_len(n):
+    """header of a masked client frame with the minimal length encoding (what srvlimits writes)"""
+    return 6 if n < 126 else (8 if n <= 0xFFFF else 14)
+
+
+def frag_wire(items):
+    """items of one frag-mode message -> [(kind, payload length)] in wire order; kind in t0 t1 c0 c1 p o r
+    (plain segs = fragments: Text first, Continuation afterwards, FIN on the last; pauses are dropped)"""
+    plain = [k for k, it in enumerate(items) if ":" not in it]
+    out, seen = [], False
+    for k, it in enumerate(items):
+        if ":" not in it:
+            out.append((("c" if seen else "t") + ("1" if k == plain[-1] else "0"), segs_len(it)))
+            seen = True
+            continue
+        pre, rest = it.split(":", 1)
+        if pre == "S":
+            continue
+        out.append(({"T0": "t0", "T1": "t1", "C0": "c0", "C1": "c1", "P": "p", "O": "o", "R": "r"}[pre], segs_len(rest)))
+    return out
+
+
+def wire_bytes(kind, n):
+    return n if kind == "r" else client_header_len(n) + n
+
+
+def frag_items_of(m):
+    return m if isinstance(m, list) else m["items"]
+
+
+def frag_frame(x):
+    """entry of a frag-mode reply list -> ("text", bytes) | ("pong", bytes) | ("marker", str)"""
+    b = frame_bytes(x)
+    if b is not None:
+        return "text", b
+    if x.startswith("PONG:"):
+        return "pong", bytes.fromhex(x[5:])
+    return "marker", x
